@@ -284,6 +284,12 @@ def ground_compare(lhs, result):
                 raise Undecided("ground evaluation raised " + type(e).__name__)
             if not isinstance(a, (Tensor, Number)) or not isinstance(b, (Tensor, Number)) or a.inputs or b.inputs:
                 raise Undecided("ground evaluation stays lazy")
+            try:
+                av_ = np.asarray(a.data, dtype=float)
+                if np.isnan(av_).any() or (av_ == np.inf).any():
+                    continue  # the original is undefined here (division by zero, overflow): the point is outside its domain
+            except (TypeError, ValueError):
+                pass
             if not close(np.asarray(a.data), np.asarray(b.data)):
                 shown = {k: np.asarray(v.data).tolist() for k, v in env.items()}
                 return ("changes-value(ground)", f"at {shown}: original evaluates to {np.asarray(a.data).tolist()}, replacement to {np.asarray(b.data).tolist()}")
